@@ -52,6 +52,7 @@ class RdfBuilder:
         self.g, self.w, self.in_domain = g, w, in_domain
         self.kinds_of_id = {}
         self.formals_of_id = {}
+        self.used_subj = {}      # container -> (kind, subject) -> {"id", "anon"}: kept across chapters of one history
 
     def build(self):
         g, w = self.g, self.w
@@ -134,7 +135,7 @@ class RdfBuilder:
     def fill(self, c, n):
         g, w = self.g, self.w
         r = g.rng
-        used_subj = collections.defaultdict(set)
+        used_subj = self.used_subj.setdefault(c, collections.defaultdict(set))
         for _ in range(n):
             if r.random() < 0.4:
                 kind = r.choice(["Entity", "Activity", "Agent"])
